@@ -330,9 +330,12 @@ def body_timed(case, ctx):
     # most c_max / c_min seconds, twice that if the clock ticks (a reading is up to one tick behind: at the first tick seen the
     # measured rate may be double the true one), and never less than one step.  Before a ticking clock has moved at all the group
     # doubles, which adds at most the time already spent inside the first tick.
+    # ... and a group is not sized beyond the budget that is left: a budget of 10 ms is not a licence to run for a second.  With the
+    # rate known to the factor q * c_max / c_min, a group sized for min(1 s, remaining) overshoots by at most (q c_max / c_min - 1) of
+    # that, or by one step.  (Until the first step has been timed nothing is known: the first group is one step.)
     c = elapsed / taken
     q = 2.0 if clock.resolution else 1.0
-    allowance = 1.05 * max(c_max, q * c_max / c_min) + c_max + 4 * clock.resolution + 8 * np.spacing(clock.t)
+    allowance = 1.05 * max(c_max, (q * c_max / c_min - 1.0) * min(1.0, budget)) + c_max + 4 * clock.resolution + 8 * np.spacing(clock.t)
     if elapsed - budget > allowance:
         raise Violation(f"timed-overshoot:{cls}", f"budget {budget:.4g} s, ran {elapsed:.4g} s ({taken} steps of ~{c:.3g} s)")
     s, p = readouts(ch)
@@ -431,7 +434,9 @@ def body_timed_pt(case, ctx):
         raise Violation("timed-early:tempering", f"run_for returned after {elapsed:.6g} s of a {budget:.6g} s budget ({taken[0]} steps of {cost:.3g} s, swap_interval {si})")
     # "and then stops": at most the progress group in flight (cycles worth about two seconds, or one cycle if slower) beyond the budget
     # (cycles faster than the clock's tick are grouped as if they took 10 ms: up to 200 of them per group)
-    allowance = 3 * (max(cycle, 2.0) + cycle) + 0.25 * budget + 2 * clock.resolution + (200 * cycle if clock.resolution else 0.0)
+    # (groups are sized for what is left of the budget: one cycle of overshoot - or, when cycles are faster than the clock's tick and
+    # counted as 10 ms each, as much again as the 2-second group they are fitted into)
+    allowance = 1.05 * max(cycle, (min(2.0, budget) if clock.resolution and cycle < 2 * clock.resolution else 0.0)) + cycle + 4 * clock.resolution + 8 * np.spacing(clock.t)
     if elapsed - budget > allowance:
         raise Violation("timed-overshoot:tempering", f"budget {budget:.4g} s, ran {elapsed:.4g} s ({taken[0]} steps of {cost:.3g} s, swap_interval {si})")
     lens = [int(c.chain_length) for c in out]
